@@ -269,6 +269,8 @@ class Facts:
         self.consts = {c['path']: c for c in doc['consts']}
         self.traits = {t['path']: t for t in doc['traits']}
         self._edges = None
+        from analysis import inline
+        self.inlined = inline.inline_new_helpers(self)   # {} on the pinned tree: only functions the tables do not know are spliced
 
     # ---- lookup ---------------------------------------------------------
     def fn(self, key):
